@@ -82,6 +82,10 @@ def run_case(c):
     if c["kind"] == "fill":
         acts = [{"op": "place_notes" if i % 2 == 0 else "place_rest", "v": c["v"],
                  "arg": {"rest": False, "items": [{"t": "bare", "n": ["C"], "o": 0}]}} for i in range(c["n"])]
+    if c["kind"] == "placeat":
+        note = {"rest": False, "items": [{"t": "bare", "n": ["C"], "o": 0}]}
+        acts = [{"op": "place_notes", "v": c["v"], "arg": note} for _ in range(c["n"])]
+        acts += [{"op": "place_at", "i": i, "arg": {"rest": False, "items": [{"t": "pair", "n": ["E"], "o": 5}]}} for i in range(c["n"], 0, -1)]
     for k, a in enumerate(acts):
         inp = {kk: vv for kk, vv in a.items() if kk != "op"}
         box = {}
